@@ -905,6 +905,15 @@ FAMILIES = {
 }
 
 
+def _forms(s, k):
+    """every few scenarios register their puppets as bound methods / classmethods / staticmethods instead of plain functions"""
+    if k % 3 == 2:
+        for j, h in enumerate(s['handlers']):
+            if h.get('kind', 'async') != 'fwd' and 'form' not in h:
+                h['form'] = ('method', 'classmethod', 'static', 'func')[(k // 3 + j) % 4]
+    return s
+
+
 def _busorder(s, k):
     """the iteration order of EventBus.all_instances (which bus's queue an inline drain visits first) is part of the scenario"""
     if len(s.get('buses', [])) > 1 and 'busorder' not in s:
@@ -916,11 +925,11 @@ def generate(name, seed=0, count=None, stride=1):
     kind, fn = FAMILIES[name]
     if kind == 'sys':
         s = fn()
-        s = [_busorder(x, i + seed) for i, x in enumerate(s)]
+        s = [_forms(_busorder(x, i + seed), i + seed) for i, x in enumerate(s)]
         if stride > 1:
             s = s[seed % stride::stride]
         if count is not None and len(s) > count:
             step = len(s) / float(count)
             s = [s[int(i * step)] for i in range(count)]
         return s
-    return [_busorder(fn(seed * 1000003 + i), (seed * 1000003 + i) // 3) for i in range(count or 100)]
+    return [_forms(_busorder(fn(seed * 1000003 + i), (seed * 1000003 + i) // 3), seed * 1000003 + i) for i in range(count or 100)]
